@@ -165,6 +165,8 @@ class Session:
         self.m3_ok = None
         self.keys = None
         self.errors = []
+        self.fault = acc.verify_fault
+        self.nreq = 0
 
     def respond(self, wire_plain: bytes, sizes=None) -> bytes:
         if self.framer:
@@ -214,7 +216,7 @@ class Session:
         except tlv8.Malformed:
             return tlv([(hap.T_STATE, b"\x02"), (hap.T_ERROR, b"\x01")]), False
         st = req.get(hap.T_STATE)
-        fault = self.acc.verify_fault
+        fault = self.fault
         if st == b"\x01":
             ios_pub = bytes(req.get(hap.T_PK, b""))
             eph_seed = C.det_bytes(self.acc.seed, f"acc-eph|{self.sid}")
